@@ -185,9 +185,18 @@ Proof.
   apply (bwp_push_tok md); [exact HW|apply TR_mk; apply SPR_mk; assumption|]. intros; fin.
 Qed.
 
+Lemma bwp_check_flow_closer seq (Q : unit -> bst -> unit -> bst -> Prop) s1 s2 :
+  BR md s1 s2 -> Q tt s1 tt s2 -> bwp (check_flow_closer seq) (check_flow_closer seq) Q s1 s2.
+Proof.
+  intros H HQ. unfold check_flow_closer. apply bwp_bind. apply bwp_get. cbv beta. br_sync H.
+  destruct (sc_ifms s1) as [|st r]; [apply bwp_ret; exact HQ|]. cbv zeta.
+  destruct (Bool.eqb _ _); [apply bwp_ret; exact HQ|]. apply bwp_fail. exact (br_mark H).
+Qed.
+
 Theorem fetch_flow_collection_end_ok : brk_fetch_flow_collection_end md.
 Proof.
   intros F1 F2 seq s1 s2 H N0. unfold fetch_flow_collection_end.
+  apply bwp_bind. apply bwp_check_flow_closer; [exact H|]. cbv beta.
   sk bwp_remove_simple_key. sk bwp_decrease_flow_level. sk bwp_disallow_simple_key.
   apply bwp_seq.
   { destruct seq.
